@@ -76,6 +76,11 @@ func scenarios(prop, tier string) []*Scenario {
 		// and is acceptable again must be selected like any other
 		r = append(r, &Scenario{Name: "genesis/mark-unmark", Cfg: hdr.Config{MaxBranchDepth: 144}, N: pick(4, 5), Marks: 2, M: 1,
 			Maint: []hdr.Op{opReload}, Slots: []string{"a", "H"}})
+		// two submitters at once while the announcement of a reorganisation waits for a subscriber
+		// whose buffer is full: one makes a side branch overtake, the other extends the chain that is
+		// still reported and makes it the heavier one again
+		r = append(r, &Scenario{Name: "genesis/concurrent-submitters", Cfg: hdr.Config{MaxBranchDepth: 144}, N: 1, Subs: 1, Races: []int{0, 1},
+			Slots: []string{"a", "H"}, OnlyTipParents: 2})
 		for _, s := range r {
 			s.oracles = []oracle{oracleC01}
 		}
@@ -96,6 +101,9 @@ func scenarios(prop, tier string) []*Scenario {
 		for _, base := range []int{9997, 9998} {
 			r = append(r, &Scenario{Name: baseName(base) + "/auto-clean-boundary", Cfg: hdr.Config{MaxBranchDepth: 144, Base: base}, N: pick(4, 5), Subs: 1,
 				Attach: []int{0, -1}, Slots: []string{"a", "H"}})
+			// the same with a storage fault at the 1st .. 6th storage call of the automatic clean
+			r = append(r, &Scenario{Name: baseName(base) + "/auto-clean-boundary/storage-fault", Cfg: hdr.Config{MaxBranchDepth: 144, Base: base}, N: 3, Subs: 1,
+				Attach: []int{0}, Slots: []string{"a", "H"}, Faults: []int{1, 2, 3, 4, 5, 6}, OnlyTipParents: 1})
 		}
 		for _, s := range r {
 			s.oracles = []oracle{oracleC07}
@@ -114,6 +122,11 @@ func scenarios(prop, tier string) []*Scenario {
 		// their children, unmarked, offered again
 		r = append(r, &Scenario{Name: "genesis/marked-at-run-time", Cfg: hdr.Config{MaxBranchDepth: 144}, N: pick(4, 5), Marks: 2, M: 1,
 			Maint: []hdr.Op{opClean}, Probes: true, Slots: []string{"a", "H"}})
+		// hashes marked before their header arrives (and known ones), with a restart that is NOT
+		// preceded by a Save (offered while storage holds exactly the accepted headers): the verdict
+		// for a marked hash must not depend on the process having been restarted
+		r = append(r, &Scenario{Name: "genesis/marked-then-restart-without-save", Cfg: hdr.Config{MaxBranchDepth: 144}, N: pick(3, 4), Marks: 2, M: 2,
+			Maint: []hdr.Op{opSave, {K: "reload", L: "nosave"}}, Probes: true, Slots: []string{"a", "H"}})
 		for _, s := range r {
 			s.oracles = []oracle{oracleC08verdict, oracleC08nochange}
 		}
@@ -175,6 +188,10 @@ func scenarios(prop, tier string) []*Scenario {
 			r = append(r, &Scenario{Name: baseName(base) + "/auto-clean-boundary", Cfg: hdr.Config{MaxBranchDepth: 144, Base: base}, N: pick(3, 5), M: 1,
 				Maint: []hdr.Op{opClean}, Attach: []int{0, -1}, Slots: []string{"a", "H"}})
 		}
+		// a header marked invalid between two cleans (the chain is cut back in memory and regrows past
+		// the heights that were already written to the header files), then pruning
+		r = append(r, &Scenario{Name: "genesis/mark-between-cleans-prune-depth-2", Cfg: hdr.Config{MaxBranchDepth: 2}, N: pick(6, 7), M: 2, Marks: 1,
+			Maint: []hdr.Op{{K: "cleand", D: 2}}, Slots: []string{"a", "H"}, OnlyTipParents: 2, MarkOnlyKnown: true})
 		for _, s := range r {
 			s.oracles = []oracle{oracleC10, oracleC01, oracleC08verdict, oracleC09}
 		}
@@ -196,6 +213,18 @@ func scenarios(prop, tier string) []*Scenario {
 		// an empty list) and re-offered around a reload
 		r = append(r, &Scenario{Name: "genesis/mark-unmark+reload", Cfg: hdr.Config{MaxBranchDepth: 144}, N: pick(3, 4), Marks: 2, M: pick(1, 2),
 			Maint: []hdr.Op{opReload}, Slots: []string{"a", "H"}})
+		// first start on empty storage and on legacy version-0 header files (Load migrates them), with
+		// a configured invalid hash: the configuration must be in force from the first Load on
+		r = append(r, &Scenario{Name: "genesis/initload+configured-invalid", Cfg: hdr.Config{MaxBranchDepth: 144, InitLoad: true, Invalid: []string{"G/a/a"}}, N: pick(4, 5), M: 2,
+			Maint: []hdr.Op{opReload}, Probes: true})
+		legacy := []int{1, 999, 1000}
+		if !quick {
+			legacy = []int{1, 998, 999, 1000, 2499}
+		}
+		for _, base := range legacy {
+			r = append(r, &Scenario{Name: "legacy-files-" + itoa(base+1) + "-headers", Cfg: hdr.Config{MaxBranchDepth: 144, Base: base, Legacy: true, Invalid: []string{hdr.BaseLabel(base) + "/a"}},
+				N: pick(3, 4), M: 2, Maint: []hdr.Op{opReload}, Attach: []int{0, -1}, Slots: []string{"a", "H"}, Probes: true})
+		}
 		for _, s := range r {
 			s.oracles = []oracle{oracleC11, oracleC01, oracleC08verdict}
 		}
@@ -224,6 +253,10 @@ func scenarios(prop, tier string) []*Scenario {
 			&Scenario{Name: "genesis/mark-after-prune-depth-2", Cfg: hdr.Config{MaxBranchDepth: 1}, N: pick(4, 5), Marks: 1, M: 1, Grows: 1, GrowBy: 3,
 				Maint: []hdr.Op{{K: "cleand", D: 2}, {K: "reloadd", D: 2}}, Slots: []string{"a", "H"}},
 		)
+		// two marks on doubly nested forks (a branch of a branch next to an unrelated branch): the
+		// order of the branch list matters to the sweep that removes descendants
+		r = append(r, &Scenario{Name: "genesis/two-marks-nested-forks", Cfg: hdr.Config{MaxBranchDepth: 144}, N: 6, Marks: 2, MarkOnlyKnown: true,
+			Slots: []string{"a", "b"}})
 		for _, s := range r {
 			s.oracles = []oracle{oracleC17, oracleC08verdict}
 		}
@@ -242,6 +275,10 @@ func scenarios(prop, tier string) []*Scenario {
 		// blocks that leave the best chain because a header below them is marked invalid
 		r = append(r, &Scenario{Name: "genesis/mark-invalid", Cfg: hdr.Config{MaxBranchDepth: 144}, N: pick(4, 5), Marks: 1, M: 1,
 			Maint: []hdr.Op{opClean}, Slots: []string{"a", "H"}})
+		// the same followed by growth and pruning: the removed blocks' hashes lie below what the main
+		// branch keeps in memory
+		r = append(r, &Scenario{Name: "genesis/mark-invalid-then-prune-depth-2", Cfg: hdr.Config{MaxBranchDepth: 1}, N: pick(5, 6), Marks: 1, MarkOnlyKnown: true, M: 1,
+			Maint: []hdr.Op{{K: "cleand", D: 2}}, Slots: []string{"a", "H"}, OnlyTipParents: 2})
 		for _, s := range r {
 			s.oracles = []oracle{oracleC18}
 		}
@@ -278,6 +315,13 @@ func scenarios(prop, tier string) []*Scenario {
 		// said before must not be what it says afterwards
 		r = append(r, &Scenario{Name: "genesis/mark-side-branch", Cfg: hdr.Config{MaxBranchDepth: 144}, N: pick(4, 5), Marks: 1, M: 1,
 			Maint: []hdr.Op{opClean}})
+		// the best chain ends in a branch that has not been consolidated yet (a reorganisation with no
+		// Clean since), for every length 2..22 of that branch and several fork heights: the back-off
+		// steps of the locator land on the branch's first header, just above and just below it
+		for d := 1; d <= pick(21, 40); d++ {
+			r = append(r, &Scenario{Name: "reorg-lengths/new-branch-of-" + itoa(d+1), Cfg: hdr.Config{MaxBranchDepth: 144, Prefix: 6}, N: 1, GrowSides: 1, GrowSideBy: d,
+				M: 1, Maint: []hdr.Op{opClean}, Slots: []string{"a", "H"}, OnlyTipParents: 4})
+		}
 		for _, s := range r {
 			s.oracles = []oracle{oracleC19}
 			// locators are requested after every operation of the history (peers are polled between
